@@ -474,6 +474,44 @@ def api_session(prog, res):
     res.need(R, 3)
 
 
+def dictionary_bound_is_the_content(prog, res):
+    """T9: the validator may let an offset reach the decoded data plus the dictionary's CONTENT.  cctx->dictContentSize is what it is
+    given: every store into that field takes its value from the loaded match state (ZSTD_loadedDictContentSize), from another
+    context's field (copy), from the single-use prefix (raw content by definition) or is 0 - never the size of a dictionary buffer,
+    which for a zstd-format dictionary includes its header and entropy tables."""
+    R = "T9.validated-quantities"
+    n = 0
+    for f in prog.fns_in("compress/zstd_compress.c"):
+        for b, i, x in f.events(lambda y: y.get("k") == "asg" and y.get("op") == "=" and strip_casts(y["lhs"]).get("k") == "mem" and strip_casts(y["lhs"]).get("f") == "dictContentSize"
+                                and strip_casts(y["lhs"]).get("rec") == "ZSTD_CCtx_s"):
+            n += 1
+            leaves = []
+
+            def src_ok(node):
+                node = strip_casts(f.resolve_x(node))
+                if node is None:
+                    return False
+                if const_val(node) == 0:
+                    return True
+                if node.get("k") == "cond":
+                    return all(src_ok(a) for a in (node.get("t"), node.get("f")) if isinstance(a, dict))
+                if is_call(node, "ZSTD_loadedDictContentSize"):
+                    return True
+                if node.get("k") == "mem" and node.get("f") == "dictContentSize" and node.get("rec") == "ZSTD_CCtx_s":
+                    return True
+                if node.get("k") == "mem" and node.get("f") == "dictSize" and any((y.get("k") == "mem" and y.get("f") == "prefixDict") or
+                                                                                 (y.get("k") == "ref" and "ZSTD_prefixDict" in (y.get("t") or "")) for y in f.walk_deep(node)):
+                    return True
+                if node.get("k") == "ref" and node.get("rk") in ("l", "sl") and f.single_def(node["n"]) is not None:
+                    return src_ok(f.single_def(node["n"]))
+                return False
+            res.check(src_ok(x["rhs"]), R, "%s:dictContentSize@%s" % (f.name, x.get("l")), "%s:%s" % (f.file, x.get("l")),
+                      "the dictionary bound of the validator comes from the loaded content",
+                      "%s stores a dictionary BUFFER size into cctx->dictContentSize: with a zstd-format dictionary the validator accepts offsets reaching into the "
+                      "dictionary's header, and the frame is refused by the decoder (corruption_detected)" % f.name)
+    res.check(n >= 4, R, "dictContentSize-stores", "lib/compress/zstd_compress.c", "%d stores" % n, "stores into cctx->dictContentSize: %d" % n)
+
+
 def run(tier):
     res = Result("C17", tier)
     tus, info = extract(["compress", "common"])
@@ -488,6 +526,7 @@ def run(tier):
     confirm_only_compressed_blocks(prog, res)
     merge_conserves_literals(prog, res)
     api_session(prog, res)
+    dictionary_bound_is_the_content(prog, res)
     # frozen guards of lib/compress for the error codes this property owns (shared inventory, split by code)
     import json as _json, os as _os
     from ..rules import guards as _guards
